@@ -77,6 +77,12 @@ CLAIMED = {
             "combination within the bounds is executed on the real code and compared with the model.",
             "Trusted: CrossHair + z3; cap names/URLs are catalogue constants; llsd formatter constructor run untraced.",
             "DESIGN.md §1 C16"),
+    "C17": ("CrossHair/z3-driven exhaustive exploration of event-queue poll histories (ack ids incl. stale re-polls, upstream "
+            "status, event counts, swallowed subsets, injections, region announcements) through the real request/response "
+            "handlers and EventQueueManager, against a sequence model of what the viewer must receive",
+            "Bounded model checking of poll histories (2 polls quick / 3 thorough) with solver-enumerated selectors.",
+            "Trusted: CrossHair + z3; LLSD-XML bodies and mitmproxy flow objects are concrete per path.",
+            "DESIGN.md §1 C17"),
     "C18": ("CrossHair/z3 symbolic execution of the real filter nodes / PEG-compiled filters with symbolic leaf truth values, "
             "of the real _val_matches and LLUDPMessageLogEntry.matches over an operator x type matrix with symbolic values, "
             "and of all bounded operation sequences on the real FilteringMessageLogger against a reference model",
